@@ -35,6 +35,8 @@ func scenarios(thorough bool) []*sess.Scenario {
 		// two rotations in one process: the retry of the first rejection is rejected again
 		{Name: "R-n1-k2", Salt: 100, Opt: opt, RotateBefore: map[int]int64{1: 200, 2: 300}, Callers: [][]sess.Call{{vecObj(1)}}},
 		// two rotations separated by successful traffic, then a probe
+		// three rotations in a row hit the same request: it is rejected three times and executed once
+		{Name: "R-n1-k3", Salt: 100, Opt: opt, RotateBefore: map[int]int64{1: 200, 2: 300, 3: 400}, Callers: [][]sess.Call{{vecInt(1), obj(2)}}},
 		{Name: "R-n1-k2-probe", Salt: 100, Opt: opt, RotateBefore: map[int]int64{1: 200, 4: 300}, Callers: [][]sess.Call{{boolean(1), rpcErr(2), vecInt(3)}}},
 		// rotation at an explorer-chosen moment (server event) with two callers in flight
 		{Name: "R-n2-free-rotation", Salt: 100, Opt: opt, Script: []rpcsrv.Event{{Kind: rpcsrv.EvRotate, Salt: 200, Label: "rotate"}}, Callers: [][]sess.Call{{vecInt(1), obj(3)}, {boolean(2)}}},
